@@ -556,7 +556,7 @@ type job struct {
 
 func jobsFor(tier string) []job {
 	var js []job
-	all := append(append(scen.Pairs(), scen.Triples()...), scen.QueryTriples()...)
+	all := append(append(append(scen.Pairs(), scen.Triples()...), scen.QueryTriples()...), scen.Bulk()...)
 	for _, sc := range all {
 		if tier == "thorough" {
 			js = append(js, job{sc, 2, 0, 25 * time.Minute})
@@ -801,7 +801,7 @@ func replay(path string) int {
 	c := doc.Violation.Case
 	name, _ := c["scenario"].(string)
 	var sc *scen.Scenario
-	for _, s := range append(append(scen.Pairs(), scen.Triples()...), scen.QueryTriples()...) {
+	for _, s := range append(append(append(scen.Pairs(), scen.Triples()...), scen.QueryTriples()...), scen.Bulk()...) {
 		if s.Name == name {
 			s := s
 			sc = &s
@@ -840,6 +840,8 @@ func replay(path string) int {
 }
 
 func main() {
+	// the driver's own scheduling point between an export and draining its reader
+	scen.Pause = func() { sched.Yield(-1) }
 	snapshotGlobals()
 	if len(os.Args) < 3 {
 		fmt.Println("usage: sched run <tier> | worker <tier> <i> <n> | replay <file>")
